@@ -319,6 +319,87 @@ def run(ctx, anchors=None):
                  "inputs: 1 if ANYONECANPAY else all; outputs: 0 if NONE, nIn+1 if SINGLE, else all", "legacy serializer counts are nInputs=%s nOutputs=%s" % (ni, no))
     except (fd.Unknown, KeyError) as e:
         raise AnalysisBroken("R02.3: legacy flag tabulation failed: %s" % e)
+    # ---- R02.5 ECDSA verification normalises the parsed signature in place and verifies that same object
+    ctx.rule("R02.5", "CPubKey::Verify / VerifyCompact: lax-parse (or compact-parse), normalise IN PLACE, verify the normalised signature")
+    for name in ("CPubKey::Verify", "CPubKey::VerifyCompact"):
+        f = fb.fn(name)
+        calls = [n for n in f.nodes() if n["k"] == "call"]
+        norm = [n for n in calls if n.get("n") == "secp256k1_ecdsa_signature_normalize"]
+        ver = [n for n in calls if n.get("n") == "secp256k1_ecdsa_verify"]
+        # follow one level of helper (a refactor may move parse+normalise into a static helper)
+        helper_norm = []
+        for n in calls:
+            for g in (prog.resolve(n["cid"]) if n.get("cid") else []):
+                helper_norm += [(g, m) for m in g.nodes() if m["k"] == "call" and m.get("n") == "secp256k1_ecdsa_signature_normalize"]
+        ctx.site()
+        ok = False
+        why = "no call of secp256k1_ecdsa_signature_normalize on the verification path"
+        cands = [(f, m) for m in norm] + helper_norm
+        if cands and ver:
+            g, m = cands[0]
+            out_arg, in_arg = m["args"][1], m["args"][2]
+            o, i = astq.estr(out_arg), astq.estr(in_arg)
+            ok = out_arg.get("k") != "null" and o != "nullptr" and o.lstrip("&") == i.lstrip("&")
+            why = "normalize(out=%s, in=%s)" % (o, i)
+            if ok and g is f:
+                ok = astq.estr(ver[0]["args"][1]).lstrip("&") == i.lstrip("&") and f.cfg().dominates(m, ver[0])
+                why += "; verify(%s)" % astq.estr(ver[0]["args"][1])
+        ctx.inst(ok, "R02.5", "normalize-in-place:" + name, f.loc(), "%s: %s" % (name, why),
+                 "%s does not verify the normalised signature (%s): a valid high-S signature is rejected when LOW_S is not enforced" % (name, why))
+    # ---- R02.6 Schnorr signature size / hash-type byte rules (BIP341)
+    ctx.rule("R02.6", "CheckSchnorrSignature: sizes other than 64/65 fail; a 65-byte signature with hash type 0x00 fails; 64 bytes means SIGHASH_DEFAULT")
+    css = [f for f in fb.funcs.values() if f.short == "CheckSchnorrSignature" and "GenericTransactionSignatureChecker" in f.name]
+    if not css:
+        raise AnalysisBroken("CheckSchnorrSignature not found")
+    cs = css[0]
+    ccfg = cs.cfg()
+    size_rej = [n for n in cs.nodes() if n["k"] == "if" and astq.estr(n["cond"]).replace(" ", "") in ("((sig.size()!=64)&&(sig.size()!=65))",) and any("SCHNORR_SIG_SIZE" in astq.estr(x) for x in walk(n["then"]))]
+    b65 = [n for n in cs.nodes() if n["k"] == "if" and astq.estr(n["cond"]).replace(" ", "") == "(sig.size()==65)"]
+    dflt_rej = []
+    if b65:
+        dflt_rej = [n for n in walk(b65[0]["then"]) if n["k"] == "if" and astq.estr(n["cond"]).replace(" ", "") == "(hashtype==SIGHASH_DEFAULT)" and any("SCHNORR_SIG_HASHTYPE" in astq.estr(x) for x in walk(n["then"])) and S.terminates(n["then"])]
+    hdecl = [d for n in cs.nodes() if n["k"] == "decl" for d in n["decls"] if d["n"] == "hashtype"]
+    hinit = astq.estr(hdecl[0].get("init")) if hdecl else None
+    shcall = [n for n in cs.nodes() if n["k"] == "call" and n.get("n") == "SignatureHashSchnorr"]
+    ctx.site(3)
+    ctx.inst(bool(size_rej), "R02.6", "size-64-or-65", cs.loc(size_rej[0]) if size_rej else cs.loc(), "signatures that are neither 64 nor 65 bytes fail with SCHNORR_SIG_SIZE")
+    ctx.inst(bool(b65) and bool(dflt_rej) and hinit == "SIGHASH_DEFAULT" and bool(shcall) and all(ccfg.dominates(b65[0]["cond"], c) for c in shcall), "R02.6", "explicit-default-hashtype-rejected", cs.loc(b65[0]) if b65 else cs.loc(),
+             "64 bytes -> SIGHASH_DEFAULT; 65 bytes -> last byte is the hash type and 0x00 is rejected before the digest is computed",
+             "a 65-byte Schnorr signature whose hash-type byte is 0x00 is no longer rejected (BIP341: 'if the signature is 65 bytes and hash_type is 0x00, fail'): signatures become malleable by appending 00")
+    vs = [n for n in cs.nodes() if n["k"] == "mcall" and n.get("n") == "VerifySchnorrSignature"]
+    ctx.inst(bool(vs) and bool(shcall) and ccfg.dominates(shcall[0], vs[0]) and astq.estr(shcall[0]["args"][4]) == "hashtype", "R02.6", "digest-uses-parsed-hashtype", cs.loc(),
+             "the digest is computed for the parsed hash type and the signature is verified against it")
+    # ---- R02.7 hash finalisers: BIP341 digests are single tagged SHA256, BIP143/legacy digests and BIP143 sub-hashes are double SHA256
+    ctx.rule("R02.7", "finalisers: GetSHA256 for the BIP341 message and its sub-hashes; GetHash (double SHA256) for the BIP143 / legacy digests and the BIP143 single-output hash; SHA256Uint256 over the single hashes for the cached BIP143 sub-hashes")
+
+    def finalisers(func, var, guard_has=None):
+        out = []
+        for n in func.nodes():
+            if n["k"] == "mcall" and n.get("n") in ("GetSHA256", "GetHash") and astq.estr(n.get("obj")) == var:
+                g = " ".join(astq.estr(c) for (c, t) in S.ast_guards(func, n) if t)
+                if guard_has is None or guard_has in g:
+                    out.append(n["n"])
+        return out
+    fin = {
+        "bip341 message": finalisers(sh, "ss"),
+        "bip341 single output": finalisers(sh, "sha_single_output"),
+        "bip143 + legacy digest and bip143 single output": sorted(set(finalisers(sg, "ss"))),
+    }
+    want_fin = {"bip341 message": ["GetSHA256"], "bip341 single output": ["GetSHA256"], "bip143 + legacy digest and bip143 single output": ["GetHash"]}
+    for k_, v_ in sorted(fin.items()):
+        ctx.site()
+        ctx.inst(v_ == want_fin[k_], "R02.7", "finaliser:" + k_, (sh if "341" in k_ else sg).loc(), "%s is finalised with %s" % (k_, v_),
+                 "%s is finalised with %s; the BIP prescribes %s (single vs double SHA256): every signature committing to it is rejected" % (k_, v_, want_fin[k_]))
+    allfin = [(n["n"], astq.estr(n.get("obj")), n) for n in sg.nodes() if n["k"] == "mcall" and n.get("n") in ("GetSHA256", "GetHash") and (n.get("objct") or "").endswith("HashWriter")]
+    wrong = [x for x in allfin if x[0] != "GetHash"]
+    ctx.inst(len(allfin) == 3 and not wrong, "R02.7", "finaliser-count:SignatureHash", sg.loc(wrong[0][2]) if wrong else sg.loc(),
+             "all three hashers finalised in SignatureHash (BIP143 single output, BIP143 digest, legacy digest) use the double SHA256",
+             "SignatureHash finalises %s: BIP143 / legacy digests and the BIP143 single-output hash are double SHA256 (GetHash); `%s.%s()` is a single SHA256, so every SIGHASH_SINGLE segwit signature is rejected"
+             % ([(a, b) for (a, b, c) in allfin], wrong[0][1] if wrong else "", wrong[0][0] if wrong else ""))
+    for helper in ("GetPrevoutsSHA256", "GetSequencesSHA256", "GetOutputsSHA256", "GetSpentAmountsSHA256", "GetSpentScriptsSHA256"):
+        hf = [f_ for f_ in fb.funcs.values() if f_.short == helper and f_.file == "script/interpreter.cpp"]
+        if hf:
+            ctx.inst(finalisers(hf[0], "ss") == ["GetSHA256"], "R02.7", "finaliser:" + helper, hf[0].loc(), "%s returns the single SHA256" % helper)
     # ---- R02.4
     pre = fb.fn("EvalChecksigPreTapscript")
 
@@ -351,6 +432,10 @@ def run(ctx, anchors=None):
 
 
 MUTANTS = [
+    dict(name="normalize-to-null", file="pubkey.cpp", find="    secp256k1_ecdsa_signature_normalize(secp256k1_context_verify, &sig, &sig);\n    return secp256k1_ecdsa_verify(secp256k1_context_verify, &sig, hash.begin(), &pubkey);\n}\n\nbool CPubKey::VerifyCompact", replace="    secp256k1_ecdsa_signature_normalize(secp256k1_context_verify, nullptr, &sig);\n    return secp256k1_ecdsa_verify(secp256k1_context_verify, &sig, hash.begin(), &pubkey);\n}\n\nbool CPubKey::VerifyCompact", expect=["R02.5:normalize-in-place:CPubKey::Verify"]),
+    dict(name="schnorr-00-hashtype-accepted", file="script/interpreter.cpp", regex=True, find=r"        if \(hashtype == SIGHASH_DEFAULT\) \{\n.*?\n            return set_error\(serror, SCRIPT_ERR_SCHNORR_SIG_HASHTYPE\);\n        \}\n", replace="", expect=["R02.6:explicit-default-hashtype-rejected"]),
+    dict(name="bip143-single-output-single-sha", file="script/interpreter.cpp", find="            ss << txTo.vout[nIn];\n            hashOutputs = ss.GetHash();", replace="            ss << txTo.vout[nIn];\n            hashOutputs = ss.GetSHA256();", expect=["R02.7:finaliser:bip143"]),
+    dict(name="bip143-single-output-renamed-single-sha", file="script/interpreter.cpp", find="            HashWriter ss{};\n            ss << txTo.vout[nIn];\n            hashOutputs = ss.GetHash();", replace="            HashWriter sha_single_output{};\n            sha_single_output << txTo.vout[nIn];\n            hashOutputs = sha_single_output.GetSHA256();", expect=["R02.7:finaliser-count:SignatureHash"]),
     dict(name="stepper-forgets-opcode_pos", file="debugger/interpreter.cpp", find="        ++env.opcode_pos; // position of the next opcode in this script (BIP342 codeseparator_pos), as in EvalScript\n", replace="", expect=["R02.1:opcode_pos-advanced-per-step"]),
     dict(name="opcode_pos-not-restarted", file="debugger/interpreter.cpp", find="        env.nOpCount = 0; // reset to avoid hitting limit prematurely!\n        env.opcode_pos = 0;\n        return true;\n    }\n\n    // we are at end", replace="        env.nOpCount = 0; // reset to avoid hitting limit prematurely!\n        return true;\n    }\n\n    // we are at end", expect=["R02.1:opcode_pos-restarts"]),
     dict(name="codesep-init-dropped", file="instance.cpp", find="    execdata.m_codeseparator_pos = 0xFFFFFFFFUL;\n    execdata.m_codeseparator_pos_init = true;\n\n    env = new InterpreterEnv", replace="    env = new InterpreterEnv", expect=["R02.2:init=m_codeseparator_pos_init"]),
